@@ -55,7 +55,7 @@ def gen_op(rng, schema, ci, classes, depth=2):
                 continue
             kw[i] = bpgen.gen_scalar(rng, f.ty)
         return ("fd", kw)
-    return (rng.choice(["copy", "deepcopy", "pickle", "read", "raw"]),)
+    return (rng.choice(["copy", "deepcopy", "copy", "deepcopy", "pickle", "read", "raw"]),)
 
 
 def op_term(op):
@@ -185,7 +185,7 @@ def run(chk, drv):
     chk.extra["rule"] = ("random schemas with oneof groups (members of every kind); histories of length ≤ 12 (thorough ≤ 40) over construct (≤ 1 member per group), setattr "
                          "(incl. default values), getattr, parse of bytes with 0..n members in any order, instance from_dict, copy, deepcopy, pickle, observers; after EVERY operation "
                          "the presence-level observation and bytes are compared with the model and the exclusivity oracle runs. non-trivial = history touches a oneof member; distinct by (schema, history)")
-    nh = 250 if quick else 3000
+    nh = 800 if quick else 6000
     maxlen = 12 if quick else 40
     for hi in range(nh):
         if hi % 5 == 0:
@@ -196,14 +196,23 @@ def run(chk, drv):
                 assert drv.ask1(bpgen.schema_line(sid, schema)) == "ok"
             cands = [i for i, m in enumerate(schema) if m.ngroups] or [0]
         ci = rng.choice(cands)
-        init = bpgen.gen_msg(rng, schema, ci, depth=2)
+        init = bpgen.gen_msg(rng, schema, ci, depth=2, multi=0.5)
         ops = [gen_op(rng, schema, ci, classes) for _ in range(rng.randint(1, maxlen))]
         m = bpgen.to_py(init, classes)
         trk = Tracker(schema, ci)
-        for i in init[2]:
+        for i in sorted(init[2]):
             f = schema[ci].fields[i]
             if f.group is not None:
                 trk.sel[f.group] = i
+        # a constructor call naming several members of one group: "set last" is not defined by the
+        # property, so the baseline is whatever ONE member the implementation reports (exclusivity is still checked)
+        for g in range(schema[ci].ngroups):
+            named = [i for i in init[2] if schema[ci].fields[i].group == g]
+            if len(named) > 1:
+                n, _ = betterproto.which_one_of(m, "g%d" % g)
+                names = [f.name for f in schema[ci].fields]
+                trk.sel[g] = names.index(n) if n in names and names.index(n) in named else -1
+                chk.count("ctor_multi_member")
         touched = any(schema[ci].fields[i].group is not None for i in init[2])
         impl_obs, terms = [], []
         inp = {"schema": [[f.line() for f in mm.fields] for mm in schema], "cls": ci, "init": bpgen.term(init), "ops": []}
